@@ -115,16 +115,77 @@ V6 = ('::1', '::', '1:2:3:4:5:6:7:8', '1:2:3:4:5:6:7:8:9', '1:2:3:4:5:6:7',
       'fe80::1%eth0', 'fe80::1%', 'fe80::1%' + 'a' * 15,
       'fe80::1%' + 'a' * 16, 'fe80::1%a%b', '::1%%', 'fe80::1%eth0%',
       '::ffff:1.2.3.4', '::ffff:1.2.3.256', '1::2::3', 'g::1', '', '1.2.3.4',
-      '::1\x00', ':::', '1:2:3:4:5:6:7::', '%eth0', '::1/64', '12345::1')
+      '::1\x00', ':::', '1:2:3:4:5:6:7::', '%eth0', '::1/64', '12345::1',
+      'fe80::1%a/b', 'fe80::1%a b')
 CIDRS = ('10.0.0.0/8', '10.0.0.0/0', '10.0.0.0/32', '10.0.0.0/33',
          '10.0.0.0/-1', '10.0.0.0/', '10.0.0.0', '10.0.0.0//8',
          '10.0.0.0/8/8', '10.0.0.0/8/', '/8', '', '::/0', '::/128', '::/129',
          '2001:db8::/64', '2001:db8::/64/', '2001:db8::/', '2001:db8::',
-         '10.0.0.256/8', 'a/8', '10.0.0.0/a', '10.0.0.1/8', '::1/64/64')
+         '10.0.0.256/8', 'a/8', '10.0.0.0/a', '10.0.0.1/8', '::1/64/64',
+         '10.0.0.0/ 8', '10.0.0.0/8 ', '10.0.0.0/+8', '10.0.0.0/8\n',
+         '10.0.0.0/٨', '2001:db8::/ 64', '2001:db8::/64\n', '::/ffff::',
+         '10.0.0.0/255.0.0.0', '10.0.0.0/08')
+
+
+def grammar_grids():
+    """Thorough tier: the address grammars of the quantifier, enumerated."""
+    import itertools
+    octs = ('-1', '0', '1', '9', '10', '255', '256', '300', '01', '001',
+            '0x1', '', ' 1', '1e1', '+1')
+    v4 = set()
+    for n in (1, 2, 3, 4, 5):
+        base = ['1', '2', '3', '4', '5'][:n]
+        v4.add('.'.join(base))
+        for i in range(n):
+            for o in octs:
+                v4.add('.'.join(base[:i] + [o] + base[i + 1:]))
+    for combo in itertools.product(('0', '255', '256', '01'), repeat=4):
+        v4.add('.'.join(combo))
+    for s in ('1.2.3.4.', '.1.2.3.4', '1.2.3.4\t', '1.2.3.4\r\n',
+              '1,2,3,4', '1.2.3.4%eth0', '1.2.3.4\x00.5', '\x001.2.3.4',
+              '１.2.3.4', '1.2.3.٤'):
+        v4.add(s)
+    v6 = set()
+    groups = ('1', 'ffff', '0', '0000', '12345', 'g', '', '-1', 'FFFF')
+    for n in range(1, 10):
+        base = [str(i) for i in range(1, n + 1)]
+        v6.add(':'.join(base))
+        for i in range(n + 1):                      # '::' at every position
+            v6.add(':'.join(base[:i]) + '::' + ':'.join(base[i:]))
+        for i in range(n):
+            for g in groups:
+                v6.add(':'.join(base[:i] + [g] + base[i + 1:]))
+    for tail in ('1.2.3.4', '1.2.3.256', '1.2.3', '1.2.3.4.5', '01.2.3.4'):
+        for head in ('::', '::ffff:', '1:2:3:4:5:6:', '1:2:3:4:5:6:7:',
+                     '64:ff9b::', '1::'):
+            v6.add(head + tail)
+    for a in ('fe80::1', '::', '1:2:3:4:5:6:7:8', '::ffff:1.2.3.4', 'g::'):
+        for n in range(0, 18):
+            v6.add(a + '%' + 'e' * n)
+        for sc in ('eth0%', '%', 'a b', 'a/b', '1', '\x00', 'é', 'e\n'):
+            v6.add(a + '%' + sc)
+    for s in (':', ':1', '1:', '::1:', ':1::', '::1 ', ' ::1', '::1\n',
+              '[::1]', '::1%', '1::1::1', ':::1', '::1/128', '0::0::0'):
+        v6.add(s)
+    cidrs = set()
+    for net in ('10.0.0.0', '10.0.0.1', '0.0.0.0', '255.255.255.255',
+                '10.0.0', '10.0.0.256', '::', '2001:db8::', 'fe80::1',
+                '::ffff:1.2.3.4', '1:2:3:4:5:6:7:8', '1:2', ''):
+        cidrs.add(net)
+        for pre in [str(i) for i in range(-1, 130)] + [
+                '', ' 8', '8 ', '08', '+8', '8/8', '/8', '8/', 'a', '0x8',
+                '255.0.0.0', '0.0.0.255', '255.255.255.255', '8\n', '٨',
+                '1e1', '8.0']:
+            cidrs.add(net + '/' + pre)
+    return tuple(sorted(v4)), tuple(sorted(v6)), tuple(sorted(cidrs))
 
 
 def run(ctx):
     rep, world = ctx.report, ctx.world
+    v4g, v6g, cidrg = V4, V6, CIDRS
+    if ctx.thorough:
+        a, b, c = grammar_grids()
+        v4g, v6g, cidrg = V4 + a, V6 + b, CIDRS + c
     rep.explanation = (
         'Every validator is extracted as a decision table with the netaddr '
         'calls kept symbolic and each of their documented failure modes '
@@ -145,12 +206,12 @@ def run(ctx):
     addr = T('sym', 'address')
     types = {addr: 'str'}
     specs = [
-        ('is_valid_ipv4', V4 + V6[:3], lambda s: _v4(s)),
-        ('is_valid_ipv6', V6 + V4[:4], _v6),
-        ('is_valid_ip', V4 + V6, lambda s: _v6(s) or _v4(s) or
+        ('is_valid_ipv4', v4g + V6[:3], lambda s: _v4(s)),
+        ('is_valid_ipv6', v6g + V4[:4], _v6),
+        ('is_valid_ip', v4g + v6g, lambda s: _v6(s) or _v4(s) or
          _aton_ok(s)),
-        ('is_valid_cidr', CIDRS, lambda s: _cidr(s)),
-        ('is_valid_ipv6_cidr', CIDRS, None),
+        ('is_valid_cidr', cidrg, lambda s: _cidr(s)),
+        ('is_valid_ipv6_cidr', cidrg, None),
     ]
     for name, grid, ref in specs:
         f = world.func(MOD, name)
